@@ -93,7 +93,9 @@ def validate_shards(paths, wd, par=16, timeout=3600):
         rs = list(ex.map(lambda kp: validate_shard(kp[1], wd, kp[0], timeout=timeout), enumerate(paths)))
     for p, r in zip(paths, rs):
         if not r['ok']:
-            tail = '\n'.join(r['out'].splitlines()[-40:])
+            lines = r['out'].splitlines()
+            first = next((i for i, l in enumerate(lines) if l.startswith('Error:')), max(0, len(lines) - 40))
+            tail = '\n'.join(lines[first:first + 30])
             raise MachineryError(f'trace validation of {p} did not complete (specification could not be '
                                  f'evaluated on some event, or not every event was consumed):\n{tail}')
     return {'states': sum(r['states'] for r in rs), 'transitions': sum(r['transitions'] for r in rs),
